@@ -253,6 +253,7 @@ func TestVerifRateLimitDoors(t *testing.T) {
 	seenTr := map[string]bool{}
 	variants := map[string]int{}
 	replies := map[string]int{}
+	started := time.Now() // the router's background scan wakes every 5 real minutes; the check distrusts a run that long
 	for bi, steps := range bs {
 		prev := "init"
 		upperSeen := false // an earlier attempt of this behaviour spelled a name in upper case at the OAuth door
@@ -308,6 +309,7 @@ func TestVerifRateLimitDoors(t *testing.T) {
 		}
 	}
 	res.Transitions = len(seenTr)
+	res.Extra["wall_s"] = time.Since(started).Seconds()
 	res.Extra["variants"] = variants
 	res.Extra["replies"] = replies
 	if err := vkWriteResult(out, res); err != nil {
